@@ -14,7 +14,7 @@ use std::{
 };
 use tokio::{
     io::{AsyncRead, AsyncWrite},
-    sync::mpsc::{channel, Receiver, Sender},
+    sync::mpsc::{channel, error::TrySendError, Receiver, Sender},
 };
 use tokio_rustls::rustls;
 
@@ -141,7 +141,7 @@ pub async fn create_quic_frames(
     id: u32,
     sessions: Arc<CHashMap<u32, Sender<Frame>>>,
 ) -> FrameIO {
-    let (tx, rx) = channel(10);
+    let (tx, rx) = channel(100);
     sessions.insert(id, tx).await;
     (QuicFrameReader::new(rx), QuicFrameWriter::new(conn, id))
 }
@@ -235,10 +235,18 @@ pub async fn quic_frames_thread(name: String, sessions: QuicFrameSessions, input
                 let frame = frame.unwrap();
                 let sid = frame.session_id;
                 if let Some(session) = sessions.get(&sid).await {
-                    if session.is_closed() || session.send(frame).await.is_err() {
-                        drop(session);
-                        sessions.remove(&sid).await;
-                        tracing::trace!("quic recv error: sid={}", sid);
+                    // never wait for one session here: this loop serves every session of the connection.
+                    // A session that does not keep up loses the datagram, as it would on a UDP socket.
+                    match session.try_send(frame) {
+                        Ok(()) => {}
+                        Err(TrySendError::Full(_)) => {
+                            tracing::trace!("quic recv: sid={} queue full, datagram dropped", sid);
+                        }
+                        Err(TrySendError::Closed(_)) => {
+                            drop(session);
+                            sessions.remove(&sid).await;
+                            tracing::trace!("quic recv error: sid={}", sid);
+                        }
                     }
                 }
             },
